@@ -147,30 +147,35 @@ def no_ra(line):
 
 
 class CB:
-    """a callback with an identity; records (id, instant)"""
-    __slots__ = ("cid", "sim")
+    """a callback with an identity; records (id, instant) in the log of the request it was registered on"""
+    __slots__ = ("cid", "sim", "log", "owner")
 
-    def __init__(self, cid, sim):
-        self.cid, self.sim = cid, sim
+    def __init__(self, cid, sim, log=None, owner=None):
+        self.cid, self.sim, self.log, self.owner = cid, sim, (sim.cblog if log is None else log), owner
 
     def __call__(self, res):
-        self.sim.cblog.append((self.cid, self.sim.clock.now, self.sim.res is None or res is self.sim.res))
+        ok = (self.sim.res is None or res is self.sim.res) if self.owner is None else res is self.owner
+        self.log.append((self.cid, self.sim.now_ticks(), ok))
 
 
 def fmt_t(x):
-    """virtual instants are integers carried in Python ints/floats"""
+    """virtual instants are whole ticks"""
     return str(int(x)) if x == int(x) else repr(x)
 
 
 class Sim:
     """one real Connection over a scripted channel + the result under test"""
 
-    def __init__(self, t0=0):
+    def __init__(self, t0=0, unit=1, first_request=True):
+        """unit: seconds per tick of the model's clock (1, or a power of two below 1: fractional timeouts and instants
+        that are exact in floating point)"""
         import rpyc.lib
         from rpyc.core import consts
         from rpyc.core.service import VoidService
         self.consts = consts
-        self.clock = Clock(t0)
+        self.unit = unit
+        self.seqs = []                 # real sequence number of the k-th request issued through this harness
+        self.clock = Clock(t0 * unit)
         self.saved_time = rpyc.lib.time
         rpyc.lib.time = self.clock
         self.chan = ScriptChannel(self)
@@ -186,7 +191,14 @@ class Sim:
         self.other_seq = 10 ** 6
         self.proxy = None
         lab, self.sleeper_id = self.conn._box(self._sleeper)
-        self.res = self.conn.async_request(consts.HANDLE_PING, "x")
+        if first_request:
+            self.res = self.conn.async_request(consts.HANDLE_PING, "x")
+
+    def now_ticks(self):
+        return self.clock.now / self.unit
+
+    def secs(self, tau):
+        return None if tau is None else tau * self.unit
 
     def close(self):
         import rpyc.lib
@@ -195,7 +207,7 @@ class Sim:
 
     # -- hooks called by the channel
     def _sleeper(self, d):
-        self.busy.append((self.clock.now, d))
+        self.busy.append((self.now_ticks(), d / self.unit))
         self.clock.sleep(d)
         return d
 
@@ -204,6 +216,7 @@ class Sim:
         msg, seq, _args = brine.load(data)
         if msg == self.consts.MSG_REQUEST and _args[0] != self.consts.HANDLE_DEL:
             self.seq = seq
+            self.seqs.append(seq)
             cb = rc_get(self.conn._request_callbacks, seq)
             if cb is not None and type(cb).__name__ == "AsyncResult":
                 self.res = cb
@@ -212,17 +225,30 @@ class Sim:
         from rpyc.core import brine, vinegar
         c = self.consts
         if msg[0] == "R":
-            self.reply_times.append(self.clock.now)
-            if msg[1]:
+            # ("R", ordinal of the request it answers, is_exc, payload): a reply carries the sequence number of ITS request
+            _r, ordinal, exc, payload = msg
+            self.reply_times.append((self.now_ticks(), ordinal))
+            if ordinal < len(self.seqs):
+                seq = self.seqs[ordinal]
+            else:       # the request has not been issued yet: the peer answers ahead of time with the number it will get
+                seq = (self.seqs[-1] if self.seqs else -1) + 1 + (ordinal - len(self.seqs))
+            if exc:
                 try:
-                    raise KeyError(msg[2])
+                    raise KeyError(payload)
                 except KeyError:
                     t, v, tb = sys.exc_info()
-                return brine.dump((c.MSG_EXCEPTION, self.seq, vinegar.dump(t, v, tb, True, True)))
-            return brine.dump((c.MSG_REPLY, self.seq, (c.LABEL_VALUE, msg[2])))
+                return brine.dump((c.MSG_EXCEPTION, seq, vinegar.dump(t, v, tb, True, True)))
+            return brine.dump((c.MSG_REPLY, seq, (c.LABEL_VALUE, payload)))
         self.other_seq += 1
         return brine.dump((c.MSG_REQUEST, self.other_seq, (c.HANDLE_CALL, (c.LABEL_TUPLE, (
-            (c.LABEL_LOCAL_REF, self.sleeper_id), (c.LABEL_VALUE, (msg[1],)), (c.LABEL_VALUE, ()))))))
+            (c.LABEL_LOCAL_REF, self.sleeper_id), (c.LABEL_VALUE, (msg[1] * self.unit,)), (c.LABEL_VALUE, ()))))))
+
+    def own_reply_times(self, ordinal=None):
+        ordinal = len(self.seqs) - 1 if ordinal is None else ordinal
+        return [t for t, o in self.reply_times if o == ordinal]
+
+    def focus_ordinal(self):
+        return len(self.seqs) - 1
 
     # -- events
     def _payload(self, obj):
@@ -256,24 +282,40 @@ class Sim:
                 out = "raised:" + type(ex).__name__
         res = self.res
         self.chan.idle_polls = 0
-        if res is not None and res._is_ready and self.ra_for is not res and self.reply_times:
-            self.ra, self.ra_for = self.reply_times[-1], res
-        return "%s@%s" % (out, fmt_t(self.clock.now))
+        if res is not None and res._is_ready and self.ra_for is not res and self.own_reply_times():
+            self.ra, self.ra_for = self.own_reply_times()[-1], res
+        return "%s@%s" % (out, fmt_t(self.now_ticks()))
 
     def _event(self, tok):
         c, res = tok[0], self.res
         if res is None and c in "XCrexvw":
             raise BadSequence("the application no longer holds the result")
+        if c in "QYZK" and not (c == "K" and self.wrapper is None):
+            # a fresh request: its result has a callback log and a ready instant of its own (callbacks of earlier
+            # results keep writing to the logs they were registered with)
+            self.cblog, self.ra, self.ra_for = [], None, None
         if c == "X":
-            res.set_expiry(parse_tau(tok[1:]))
+            res.set_expiry(self.secs(parse_tau(tok[1:])))
             out = "-"
         elif c == "A":
-            self.conn._dispatch(self.encode(("R", tok[1] == "T", int(tok[2:]))))
+            self.conn._dispatch(self.encode(("R", self.focus_ordinal(), tok[1] == "T", int(tok[2:]))))
             out = "-"
         elif c == "S":
-            d, m = tok[1:].split(":")
-            msg = ("R", m[1] == "T", int(m[2:])) if m[0] == "R" else ("O", int(m[1:]))
-            self.chan.queue.append((self.clock.now + int(d), msg))
+            d, m = tok[1:].split(":", 1)
+            if m[0] == "O":
+                msg = ("O", int(m[1:]))
+            elif m[0] == "N":        # the reply to the request that will be issued next
+                msg = ("R", len(self.seqs), m[1] == "T", int(m[2:]))
+            elif ":" in m:           # R<k>:<T|F><v>: the reply to request k
+                k, rest = m[1:].split(":")
+                msg = ("R", int(k), rest[0] == "T", int(rest[1:]))
+            else:                    # the reply to the request issued last
+                msg = ("R", len(self.seqs) - 1, m[1] == "T", int(m[2:]))
+            self.chan.queue.append((self.clock.now + int(d) * self.unit, msg))
+            out = "-"
+        elif c == "U":
+            self.conn.serve(self.secs(parse_tau(tok[1:])))
+            self.chan.idle_polls = 0
             out = "-"
         elif c == "V":
             self.conn.serve(0)
@@ -293,26 +335,26 @@ class Sim:
         elif c == "w":
             out = "-" if res.wait() is None else "?"
         elif c == "T":
-            self.clock.sleep(int(tok[1:]))
+            self.clock.sleep(int(tok[1:]) * self.unit)
             out = "-"
         elif c == "Y":
-            self.conn._config["sync_request_timeout"] = parse_tau(tok[1:])
+            self.conn._config["sync_request_timeout"] = self.secs(parse_tau(tok[1:]))
             out = "val:" + self._payload(self.conn.sync_request(self.consts.HANDLE_PING, "x"))
         elif c == "Q":
-            self.res = self.conn.async_request(self.consts.HANDLE_PING, "x", timeout=parse_tau(tok[1:]))
+            self.res = self.conn.async_request(self.consts.HANDLE_PING, "x", timeout=self.secs(parse_tau(tok[1:])))
             out = "-"
         elif c == "Z":
             import rpyc
             if self.proxy is None:
                 self.proxy = self.conn._unbox((self.consts.LABEL_REMOTE_REF, ("builtins.function", 11, 12)))
-            self.timed = rpyc.timed(self.proxy, parse_tau(tok[1:]))
+            self.timed = rpyc.timed(self.proxy, self.secs(parse_tau(tok[1:])))
             self.res = self.timed()
             out = "-"
         elif c == "W":
             import rpyc
             if self.proxy is None:
                 self.proxy = self.conn._unbox((self.consts.LABEL_REMOTE_REF, ("builtins.function", 11, 12)))
-            self.wrapper = rpyc.timed(self.proxy, parse_tau(tok[1:]))      # made now, called later (K), maybe repeatedly
+            self.wrapper = rpyc.timed(self.proxy, self.secs(parse_tau(tok[1:])))      # made now, called later (K), maybe repeatedly
             out = "-"
         elif c == "D":
             # the application lets go of the result: from here on only the library references it (or does not)
@@ -347,7 +389,7 @@ class Sim:
             "N" if self.ra is None else fmt_t(self.ra),
             "T" if self.seq in self.conn._request_callbacks else "F", len(self.chan.queue),
             ",".join("%s@%s" % (fmt_t(s), fmt_t(d)) for s, d in self.busy),
-            fmt_t(res._ttl.tmax) if res._ttl.finite else "inf")
+            fmt_t(res._ttl.tmax / self.unit) if res._ttl.finite else "inf")
 
     # -- snapshots for prefix-sharing enumeration (the result under test is the only one)
     def snapshot(self):
@@ -408,9 +450,9 @@ def tau_tok(tau):
     return "N" if tau is None else str(tau)
 
 
-def run_impl(t0, toks):
+def run_impl(t0, toks, unit=1):
     """one sequence on a fresh real connection -> the line the model must print"""
-    sim = Sim(t0)
+    sim = Sim(t0, unit)
     try:
         out = [sim.apply(t) for t in toks]
         out.append(sim.state())
@@ -507,7 +549,7 @@ def reuse_tokens(kind, tau, calls, callbacks=False):
             toks.append("T%d" % before)
         send = [] if reply is None else ["S%d:R%s%d" % (reply, "T" if n == 1 else "F", 7 + n)]
         if kind == "Y":
-            toks += send + ["Y" + tau_tok(tau)]
+            toks += [t.replace(":R", ":N") for t in send] + ["Y" + tau_tok(tau)]
         else:
             toks += ["K" if kind == "K" else "Q" + tau_tok(tau)] + send
             if callbacks:
@@ -544,7 +586,11 @@ def gen_sequence(r, n):
     tau = r.choice(TIMEOUTS + [2, 5, -7])
     if k == 0:
         pre = ["S%d:%s" % (r.below(7), gen_msg(r)) for _ in range(r.below(4))]
-        return pre + [r.choice("YQZ") + tau_tok(tau)] + (["v"] if r.chance(1, 2) else []) + \
+        kind = r.choice("YQZ")
+        # replies put into the channel before the request: addressed to the request to come (N), or - for Q/Z now and
+        # then - to the previous one (R): a stale reply crossing a new request
+        pre = [t.replace(":R", ":N") if (kind == "Y" or r.chance(2, 3)) else t for t in pre]
+        return pre + [kind + tau_tok(tau)] + (["v"] if r.chance(1, 2) else []) + \
             [gen_tok(r) for _ in range(r.below(4))]
     if k <= 3:
         toks.append("X" + tau_tok(tau))
@@ -621,10 +667,10 @@ def scenario_tokens(kind, tau, pre, k, post, ops):
     """the model's event sequence for a scenario (instants relative to the call)"""
     sends = []
     if k is None:
-        sends.append("S%d:RF42" % (pre + post))
+        sends.append("S%d:NF42" % (pre + post))
     else:
         sends.append("S%d:O%d" % (pre, k))
-        sends.append("S%d:RF42" % (pre + k + post))
+        sends.append("S%d:NF42" % (pre + k + post))
     if kind == "sync":
         return sends + ["Y" + tau_tok(tau)]
     return sends + ["Z" + tau_tok(tau)] + list(ops)
@@ -768,7 +814,7 @@ def reuse_tokens_of(steps):
         elif st[0] == "Q":
             toks += ["Q" + tau_tok(st[1]), "S%d:RF42" % st[2]]; seen += [True, False]
         elif st[0] == "Y":
-            toks += ["S%d:RF42" % st[2], "Y" + tau_tok(st[1])]; seen += [False, True]
+            toks += ["S%d:NF42" % st[2], "Y" + tau_tok(st[1])]; seen += [False, True]
         elif st[0] == "F":
             toks += ["Q" + tau_tok(st[1]), "S%d:RF42" % st[2]] + ["C%d" % (k + 1) for k in range(st[3])] + ["D"]
             seen += [True, False] + [False] * st[3] + [False]
@@ -1067,7 +1113,7 @@ def oracle_sequence(t0, toks):
                 # a fresh request: its result is judged on its own, and by the statement it expires at ITS OWN issue
                 # instant + timeout, however old the connection or the timed() wrapper is
                 deadline, outcome, registered, arrival_at, first_reply_seen = None, None, [], None, False
-                log0 = len(sim.cblog)
+                log0 = 0               # (the harness starts a new log for a new result)
                 tau = wrapper_tau if c == "K" else parse_tau(tok[1:])
                 dl_at_call = sim.clock.now + tau if tau is not None and tau >= 0 else None
             called_at = sim.clock.now
@@ -1078,14 +1124,16 @@ def oracle_sequence(t0, toks):
             obs = sim.apply(tok).rsplit("@", 1)[0]
             now = sim.clock.now
             res = sim.res
+            if c in "YQZK":
+                log_before = []
             if res is None:
                 # the application dropped its reference (D): nothing can be asked of the result any more, but the statement
                 # still says what its callbacks do: registered before the reply => run exactly once, in order, when the
                 # reply arrives (unless the expiry came first) - whether or not anybody still holds the result
                 new = [(cid, t) for cid, t, _ok in sim.cblog[len(log_before):]]
                 decided_now = False
-                for at in sim.reply_times[n_replies:]:
-                    if first_reply_seen:
+                for at, o_ in sim.reply_times[n_replies:]:
+                    if first_reply_seen or o_ != len(sim.seqs) - 1:
                         continue
                     first_reply_seen = True
                     if outcome is None:
@@ -1118,9 +1166,9 @@ def oracle_sequence(t0, toks):
             if c == "C" and not was_ready:
                 registered.append((int(tok[1:]), called_at))
             # --- a reply was dispatched during this event: decide what the statement says about it
-            for at in sim.reply_times[n_replies:]:
-                if first_reply_seen:
-                    continue
+            for at, o_ in sim.reply_times[n_replies:]:
+                if first_reply_seen or o_ != len(sim.seqs) - 1:
+                    continue          # (a reply carrying another request's number is none of this result's business)
                 first_reply_seen = True
                 if arrival_at is None and outcome is None:
                     if deadline is None or at < deadline:
@@ -1275,7 +1323,7 @@ def oracle_search(ctx, corr, broken):
             if f:
                 return f
     for tau in TIMEOUTS:
-        for sends in ([], ["S1:RF7"], ["S2:O3", "S6:RT7"], ["S4:RF7"], ["S0:RF7"]):
+        for sends in ([], ["S1:NF7"], ["S2:O3", "S6:NT7"], ["S4:NF7"], ["S0:NF7"]):
             msg = oracle_sync(tau, sends)
             if msg:
                 return dict(kind="history", t0=0, sync_timeout=tau_tok(tau), events=" ".join(sends)), msg, "c15:sync_request"
